@@ -91,6 +91,9 @@ inductive AdvItem
 inductive Peer
   /-- a stream header; `ok = false`: one the header checks reject -/
   | hdr (ok : Bool)
+  /-- a well-formed stream header of the other framing: `<open/>` (RFC 7395) on a TCP session,
+  `<stream:stream>` on a WebSocket session -/
+  | hdrOther
   /-- a features list -/
   | adv (items : List AdvItem)
   /-- any other element (a selection when the receiver reads it); `iq`: wrapped in an IQ,
@@ -120,6 +123,16 @@ inductive RdKind | hdr | list | sel
 inductive RdRes | got | eof | fault
   deriving DecidableEq, Repr
 
+/-- the I/O operations of negotiation that can block -/
+inductive IoOp
+  | hdrOut | hdrIn | listOut (st : St) (fs : List Feature) | listRd | selRd
+  deriving DecidableEq, Repr
+
+/-- is it a write -/
+def IoOp.wr : IoOp → Bool
+  | .hdrOut | .listOut _ _ => true
+  | _ => false
+
 inductive Ev
   /-- stream header written (`ok = false`: the write failed) -/
   | hdrOut (ok : Bool)
@@ -142,6 +155,9 @@ inductive Ev
   | neg (f : Feature) (st : St) (req forced srv : Bool) (r : NegRes)
   /-- the receiver refused a selection (no callback ran) -/
   | refuse (name : FName)
+  /-- the read or write of the connection behind `op` does not complete: the peer is silent,
+  resp. does not read -/
+  | blocked (op : IoOp)
   deriving DecidableEq, Repr
 
 /-- External behaviour.  The `Nat` argument of the callbacks is the length of the trace at
@@ -156,6 +172,17 @@ structure Oracle where
   /-- the context is cancelled once the trace is this one (the deadline of the connection is
   then in the past: every I/O operation fails) -/
   cancel : List Ev → Bool
+  /-- the `k`-th I/O operation blocks: it only returns when its deadline passes -/
+  block : Nat → Bool
+  /-- which deadlines of the connection the context watcher (`setDeadline`) moves into the past
+  when the context is done: the read deadline, the write deadline (a property of the code, tied
+  to the source by the regenerated fact `Generated.C04.deadlineSetters`) -/
+  dlRd : Bool
+  dlWr : Bool
+  /-- does a restarting `Negotiate` return a new connection layer (as STARTTLS does) rather than
+  the session's current connection (as SASL does); only matters when a tee is configured: a new
+  layer is not a `teeConn`, so the negotiator wraps it again -/
+  layer : Nat → Feature → Bool
 
 /-! ### machine -/
 
@@ -202,6 +229,13 @@ inductive Pc
   | fail (c : ErrCls)
   /-- the library panicked (never reached: kept so that the driver can name the outcome) -/
   | crash
+  /-- inside a blocked read / write; when its deadline passes the operation fails: event `ev`,
+  outcome `fail cls` -/
+  | blocked (op : IoOp)
+  /-- the call never returns: blocked in a read / write whose deadline does not pass -/
+  | hung (wr : Bool)
+  /-- `negotiateSession` got the `teeConn` back from the negotiator (only entered by `stepT`) -/
+  | tee
   /-- the pick script does not describe a possible map iteration -/
   | stuck
   deriving DecidableEq, Repr
@@ -241,9 +275,27 @@ def init (st0 : St) (script : List Peer) (picks : List FName) : Conf :=
     doRestart := true, first := true, srv := false, cache := [], lreq := false, total := 0,
     listed := [], curAdv := [], skipped := [] }
 
+/-- a read fails at once: injected fault, or the context is done and the read deadline was
+moved into the past -/
+def rdFails (O : Oracle) (c : Conf) : Bool := O.fault c.io || (O.cancel c.tr && O.dlRd)
+
+/-- a write fails at once -/
+def wrFails (O : Oracle) (c : Conf) : Bool := O.fault c.io || (O.cancel c.tr && O.dlWr)
+
+/-- enter a blocked read / write -/
+def Conf.block (c : Conf) (op : IoOp) : Conf :=
+  { c with io := c.io + 1, tr := .blocked op :: c.tr, pc := .blocked op }
+
+/-- a blocked operation returns only if the context is done and the watcher moved *its*
+deadline into the past; it then fails (event `ev`); otherwise the call never returns -/
+def unblock (O : Oracle) (c : Conf) (wr : Bool) (ev : Ev) : Conf :=
+  if O.cancel c.tr && (if wr then O.dlWr else O.dlRd) then { c with tr := ev :: c.tr, pc := .fail .io }
+  else c.goto (.hung wr)
+
 /-- `intstream.Send` -/
 def writeHdr (O : Oracle) (c : Conf) (next : Pc) : Conf :=
-  if O.fault c.io || O.cancel c.tr then { c with io := c.io + 1, tr := .hdrOut false :: c.tr, pc := .fail .io }
+  if wrFails O c then { c with io := c.io + 1, tr := .hdrOut false :: c.tr, pc := .fail .io }
+  else if O.block c.io then c.block .hdrOut
   else { c with io := c.io + 1, tr := .hdrOut true :: c.tr, pc := next }
 
 /-- `intstream.Expect` and the address checks of `negotiator` -/
@@ -251,6 +303,7 @@ def readHdr (O : Oracle) (c : Conf) (next : Pc) : Conf :=
   -- `Expect` looks at `ctx.Done()` before it reads
   if O.cancel c.tr then c.goto (.fail .io)
   else if O.fault c.io then { c with io := c.io + 1, tr := .rd .hdr .fault :: c.tr, pc := .fail .io }
+  else if O.block c.io then c.block .hdrIn
   else match c.script with
     | [] => { c with io := c.io + 1, tr := .rd .hdr .eof :: c.tr, pc := .fail .io }
     | .hdr true :: r => { c with io := c.io + 1, tr := .rd .hdr .got :: c.tr, script := r, pc := next }
@@ -286,6 +339,7 @@ def tlsFeature (C : List Feature) : Option Feature := C.find? (fun f => f.name.n
 /-- name under which a peer item is looked up when the receiver reads it as a selection -/
 def Peer.selName : Peer → Option (FName × Bool × Bool)
   | .hdr _ => some (⟨nsStream, 0⟩, false, true)
+  | .hdrOther => some (⟨nsStream, 3⟩, false, true)
   | .adv _ => some (⟨nsStream, 1⟩, false, true)
   | .serr => some (⟨nsStream, 2⟩, false, true)
   | .elem n iq p => some (n, iq, p)
@@ -313,14 +367,17 @@ def step (C : List Feature) (O : Oracle) (c : Conf) : Conf :=
                      listed := c.listed ++ [f], pc := .listing fs }
     else c.goto (.listing fs)
   | .flush =>
-    if O.fault c.io || O.cancel c.tr then
+    if wrFails O c then
       { c with io := c.io + 1, tr := .listOut c.st c.listed false :: c.tr, pc := .fail .io }
+    else if O.block c.io then c.block (.listOut c.st c.listed)
     else { c with io := c.io + 1, tr := .listOut c.st c.listed true :: c.tr, pc := .sloop }
   | .abort =>
-    { c with io := c.io + 1, tr := .listAbort (!(O.fault c.io || O.cancel c.tr)) :: c.tr,
+    -- (a blocked deferred flush is not modelled: this write never blocks)
+    { c with io := c.io + 1, tr := .listAbort (!wrFails O c) :: c.tr,
              pc := .fail .cb }
   | .readList =>
-    if O.fault c.io || O.cancel c.tr then { c with io := c.io + 1, tr := .rd .list .fault :: c.tr, pc := .fail .io }
+    if rdFails O c then { c with io := c.io + 1, tr := .rd .list .fault :: c.tr, pc := .fail .io }
+    else if O.block c.io then c.block .listRd
     else match c.script with
       | [] => { c with io := c.io + 1, tr := .rd .list .eof :: c.tr, pc := .fail .io }
       | .adv items :: r =>
@@ -371,7 +428,8 @@ def step (C : List Feature) (O : Oracle) (c : Conf) : Conf :=
         | none => c.goto .stuck
         | some e => negotiate O { c with picks := ps } e false (.cloop false)
   | .sloop =>
-    if O.fault c.io || O.cancel c.tr then { c with io := c.io + 1, tr := .rd .sel .fault :: c.tr, pc := .fail .io }
+    if rdFails O c then { c with io := c.io + 1, tr := .rd .sel .fault :: c.tr, pc := .fail .io }
+    else if O.block c.io then c.block .selRd
     else match c.script with
       | [] => { c with io := c.io + 1, tr := .rd .sel .eof :: c.tr, pc := .fail .io }
       | item :: r =>
@@ -397,14 +455,52 @@ def step (C : List Feature) (O : Oracle) (c : Conf) : Conf :=
   | .done => c
   | .fail _ => c
   | .crash => c
+  | .blocked .hdrOut => unblock O c true (.hdrOut false)
+  | .blocked .hdrIn => unblock O c false (.rd .hdr .fault)
+  | .blocked (.listOut st fs) => unblock O c true (.listOut st fs false)
+  | .blocked .listRd => unblock O c false (.rd .list .fault)
+  | .blocked .selRd => unblock O c false (.rd .sel .fault)
+  | .hung _ => c
+  | .tee => c
   | .stuck => c
+
+/-- a configuration of a session whose `StreamConfig` may carry `TeeIn`/`TeeOut`: the
+configuration and whether the session's connection currently is a `teeConn` -/
+structure TConf where
+  c : Conf
+  teed : Bool
+  deriving Repr
+
+/-- did the `Negotiate` call logged last return a new connection layer -/
+def layerOfLast (O : Oracle) : List Ev → Bool
+  | .neg f _ _ _ _ _ :: rest => O.layer rest.length f
+  | _ => false
+
+/-- One step of a session whose `StreamConfig` may carry a tee (`tee`): before anything else a
+negotiator call wraps a connection that is not yet a `teeConn` and returns it (no mask, no
+I/O); `negotiateSession` checks the context, installs it (clearing `s.negotiated`) and calls the
+negotiator again. Everything else is `step`; a restart with a new connection layer (which is not
+a `teeConn`) makes the next negotiator call wrap again. -/
+def stepT (tee : Bool) (C : List Feature) (O : Oracle) (t : TConf) : TConf :=
+  if t.c.pc = .tee then
+    if O.cancel t.c.tr then ⟨t.c.goto (.fail .io), t.teed⟩
+    else ⟨{ t.c with negd := [], pc := .top }, true⟩
+  else if tee ∧ t.c.pc = .top ∧ has t.c.st bReady = false ∧ t.teed = false then ⟨t.c.goto .tee, t.teed⟩
+  else ⟨step C O t.c,
+        match t.c.pc with
+        | .ret _ true => if layerOfLast O t.c.tr then false else t.teed
+        | _ => t.teed⟩
+
+def runT (tee : Bool) (C : List Feature) (O : Oracle) : Nat → TConf → TConf
+  | 0, t => t
+  | n + 1, t => runT tee C O n (stepT tee C O t)
 
 def run (C : List Feature) (O : Oracle) : Nat → Conf → Conf
   | 0, c => c
   | n + 1, c => run C O n (step C O c)
 
 def Pc.final : Pc → Bool
-  | .done | .fail _ | .crash | .stuck => true
+  | .done | .fail _ | .crash | .stuck | .hung _ | .tee => true
   | _ => false
 
 end XmppModel.Negotiate
